@@ -56,6 +56,8 @@ func runC14(w *World, r *Report) {
 	checkCarried(w, r, "C14/WIRING", []string{"SkipSchemaValidation"})
 	checkFlagBinding(w, r, "C14/WIRING", map[string]bool{"SkipSchemaValidation": true})
 	c14LintTemplates(w, r)
+	r.Rule("C14/SCHEMA-KEPT", "the copy of a chart made for a (possibly aliased) dependency carries every field of the loaded chart, in particular its Schema", 1)
+	c11AliasWhole(w, r, "C14/SCHEMA-KEPT")
 }
 
 func isRenderFunc(f *ssa.Function) bool {
